@@ -9,7 +9,7 @@ from __future__ import annotations
 
 FINAL = ["K-", "pi+", "pi+", "pi-"]
 # resonances by what they decay to (indices into a 4-body final state are irrelevant here; names only)
-V_KPI = ["K*(892)bar0", "K*(892)bar0", "NonResV0"]          # NonRes*: placeholder states of the Mint table, resonances like any other
+V_KPI = ["K*(892)bar0", "K*(892)bar0", "NonResV0", "D*(2007)bar0"]   # (a charm anti-quark state: the radius of its lineshape is the charm one)          # NonRes*: placeholder states of the Mint table, resonances like any other
 V_PIPI = ["rho(770)0", "rho(1450)0", "omega(782)0"]
 S_KPI = ["KPi00", "KPi10", "KPi20", "NonResS0"]
 S_PIPI = ["PiPi00", "PiPi10", "PiPi20", "PiPi30"]
